@@ -9,6 +9,7 @@ import DTML.Render
 import DTML.Lemmas.Fuel
 import DTML.Lemmas.Print
 import DTML.Lemmas.ScanGen
+import DTML.GenJoin
 set_option linter.unusedVariables false
 namespace DTML.Props.C01
 open DTML.Scan DTML.Parse
@@ -564,5 +565,126 @@ theorem gen_html_scanner_search_is_model (text : Text) (start : Nat) :
     GenScan.searchGen text (text.length + 1) start =
       (scanHtml (text.drop start)).map (fun r => (start + r.1.length, r.2.1)) :=
   Lemmas.ScanGen.searchGen_eq text (text.length + 1) start (by omega)
+
+
+/-! #### the main loop of `render_blocks_` as translated from the source on every run (DTML/GenJoin.lean)
+
+`GenJoin.blockStepGen` is one round of `for block in blocks:` - the dispatch on the kind of block (text as it is; a tuple
+with a str head to the `'v'` / `'i'` branches, which GenRender translates; anything else called with the namespace) and
+`if append and block: rendered.append(block)`.  It is proved equal to what `renderBlk` / `renderBlocks` of the model do
+with such a block: the pieces the block contributes are appended to the pieces collected so far. -/
+
+section BlockLoop
+open DTML.Render DTML.GenJoin
+
+/-- `rendered` after a round whose block contributes `r` -/
+def appendTo (rendered : List Piece) (r : Res (List Piece) × St) : Res (List Piece) × St :=
+  match r with
+  | (.ok ps, st) => (.ok (rendered ++ ps), st)
+  | r => r
+
+/-- **a text block is appended as it is** (an empty one not at all): `renderBlk` on `.lit` -/
+theorem gen_block_step_literal (env : Env) (fuel : Nat) (vB : St → Res Piece × St)
+    (iB : List Piece → St → Res (List Piece) × St) (s : Render.Text) (rendered : List Piece) (st : St) :
+    blockStepGen vB iB (.str s) rendered st = appendTo rendered (renderBlk env (fuel + 1) (.lit s) st) := by
+  rw [lit_verbatim]
+  cases s with
+  | nil => simp [blockStepGen, isTuple, isStr, blockTruthy, appendTo]
+  | cons c t => simp [blockStepGen, isTuple, isStr, blockTruthy, appendTo, appendBlock]
+
+/-- a bytes block is appended as it is too (no template of the model contains one; the dispatch of the source treats
+it as text: `isinstance(block, (str, bytes))`) -/
+theorem gen_block_step_bytes (vB : St → Res Piece × St) (iB : List Piece → St → Res (List Piece) × St)
+    (b : List Nat) (rendered : List Piece) (st : St) :
+    blockStepGen vB iB (.bytes b) rendered st = (.ok (rendered ++ if b.isEmpty then [] else [.bytes b]), st) := by
+  cases b with
+  | nil => simp [blockStepGen, isTuple, isStr, isBytesBlock, blockTruthy]
+  | cons c t => simp [blockStepGen, isTuple, isStr, isBytesBlock, blockTruthy, appendBlock]
+
+/-- **any other block is called with the namespace and its result appended unless it is empty** (`oneRes`: what the model
+does with the result of a tag object), exceptions and DTReturn pass through -/
+theorem gen_block_step_called (vB : St → Res Piece × St) (iB : List Piece → St → Res (List Piece) × St)
+    (render : St → Res Piece × St) (rendered : List Piece) (st : St) :
+    blockStepGen vB iB (.obj render) rendered st = appendTo rendered (oneRes (render st)) := by
+  simp only [blockStepGen, isTuple, isStr, isBytesBlock, callBlock, Bool.false_eq_true, false_and, or_self,
+    not_false_eq_true, if_true, if_false]
+  rcases hr : render st with ⟨r, st1⟩
+  cases r with
+  | ok p =>
+    cases p with
+    | text s => cases s <;> simp [oneRes, appendTo, ofPiece, blockTruthy, appendBlock, pieceEmpty]
+    | bytes b => cases b <;> simp [oneRes, appendTo, ofPiece, blockTruthy, appendBlock, pieceEmpty]
+  | raise e => rfl
+  | ret v => rfl
+  | oom => rfl
+
+/-- e.g. a comment tag (its `render` returns `''`): `renderBlk` on `.comment` -/
+theorem gen_block_step_comment (env : Env) (fuel : Nat) (vB : St → Res Piece × St)
+    (iB : List Piece → St → Res (List Piece) × St) (rendered : List Piece) (st : St) :
+    blockStepGen vB iB (.obj fun st => (.ok (.text []), st)) rendered st =
+      appendTo rendered (renderBlk env (fuel + 1) .comment st) := by
+  rw [gen_block_step_called]
+  simp [oneRes, pieceEmpty, renderBlk]
+
+/-- a tuple whose code begins with `v` goes to the `'v'` branch: the value it leaves is appended unless empty -/
+theorem gen_block_step_var (vB : St → Res Piece × St) (iB : List Piece → St → Res (List Piece) × St)
+    (code : Render.Text) (n : Nat) (rendered : List Piece) (st : St) :
+    blockStepGen vB iB (.tuple (some ('v' :: code)) (n + 2)) rendered st = appendTo rendered (oneRes (vB st)) := by
+  have hn : n + 2 > 1 := by omega
+  simp only [blockStepGen, isTuple, blockLen, headIsStr, headChar, hn, and_self, if_true]
+  rcases hr : vB st with ⟨r, st1⟩
+  cases r with
+  | ok p =>
+    cases p with
+    | text s => cases s <;> simp [oneRes, appendTo, ofPiece, blockTruthy, appendBlock, pieceEmpty]
+    | bytes b => cases b <;> simp [oneRes, appendTo, ofPiece, blockTruthy, appendBlock, pieceEmpty]
+  | raise e => rfl
+  | ret v => rfl
+  | oom => rfl
+
+/-- a tuple whose code begins with `i` goes to the `'i'` branch, which appends what it renders itself; nothing is
+appended after it (`append = False`) -/
+theorem gen_block_step_if (vB : St → Res Piece × St) (iB : List Piece → St → Res (List Piece) × St)
+    (code : Render.Text) (n : Nat) (rendered : List Piece) (st : St) :
+    blockStepGen vB iB (.tuple (some ('i' :: code)) (n + 2)) rendered st = iB rendered st := by
+  have hn : n + 2 > 1 := by omega
+  have hc : ¬ ('i' = 'v') := by decide
+  simp only [blockStepGen, isTuple, blockLen, headIsStr, headChar, hn, hc, and_self, if_true, if_false]
+  rcases hr : iB rendered st with ⟨r, st1⟩
+  cases r <;> simp
+
+/-- any other command code is an error -/
+theorem gen_block_step_invalid_code (vB : St → Res Piece × St) (iB : List Piece → St → Res (List Piece) × St)
+    (c : Char) (code : Render.Text) (n : Nat) (rendered : List Piece) (st : St) (hv : c ≠ 'v') (hi : c ≠ 'i') :
+    blockStepGen vB iB (.tuple (some (c :: code)) (n + 2)) rendered st = (.raise ⟨"ValueError".toList, []⟩, st) := by
+  have hn : n + 2 > 1 := by omega
+  simp only [blockStepGen, isTuple, blockLen, headIsStr, headChar, hn, hv, hi, and_self, if_true, if_false]
+
+/-- **one unfolding of the block loop**: if the round for the first block does what `renderBlk` does with the model's block
+and the rest of the loop what `renderBlocks` does with the rest, then the loop does what `renderBlocks` does with all of
+them - the pieces come out in the order of the blocks, appended to those collected before -/
+theorem gen_block_loop_unfold (env : Env) (fuel : Nat) (step : PyBlock → List Piece → St → Res (List Piece) × St)
+    (pb : PyBlock) (pbs : List PyBlock) (b : Blk) (bs : List Blk)
+    (hb : ∀ rendered st, step pb rendered st = appendTo rendered (renderBlk env fuel b st))
+    (hrest : ∀ rendered st, blocksLoopGen step pbs rendered st = appendTo rendered (renderBlocks env fuel bs st))
+    (rendered : List Piece) (st : St) :
+    blocksLoopGen step (pb :: pbs) rendered st = appendTo rendered (renderBlocks env (fuel + 1) (b :: bs) st) := by
+  simp only [blocksLoopGen, renderBlocks, hb]
+  rcases h1 : renderBlk env fuel b st with ⟨r, st1⟩
+  cases r with
+  | ok ps =>
+    simp only [appendTo, hrest]
+    rcases h2 : renderBlocks env fuel bs st1 with ⟨r2, st2⟩
+    cases r2 <;> simp
+  | raise e => rfl
+  | ret v => rfl
+  | oom => rfl
+
+/-- the empty loop collects nothing more -/
+theorem gen_block_loop_nil (env : Env) (fuel : Nat) (step : PyBlock → List Piece → St → Res (List Piece) × St)
+    (rendered : List Piece) (st : St) :
+    blocksLoopGen step [] rendered st = appendTo rendered (renderBlocks env (fuel + 1) [] st) := by
+  simp [blocksLoopGen, renderBlocks, appendTo]
+end BlockLoop
 
 end DTML.Props.C01
